@@ -22,65 +22,81 @@ VARIABLES disk,    \* name -> [sig, content]        the files
           inst,    \* instance id -> [name, kt, content, dirty]   buffered view of one open of the files
           reg,     \* key type -> (name -> instance id)
           hnd,     \* handle -> instance id
+          nid,     \* next instance id
           lastop
-vars == <<disk, inst, reg, hnd, lastop>>
+vars == <<disk, inst, reg, hnd, nid, lastop>>
 
-Init == disk = <<>> /\ inst = <<>> /\ reg = [t \in Types |-> <<>>] /\ hnd = <<>> /\ lastop = <<"init">>
+\* f extended (or overwritten) at a by v, written out (instead of (a :> v) @@ f) so that the proofs need no library facts
+Ext(f, a, v) == [x \in (DOMAIN f) \cup {a} |-> IF x = a THEN v ELSE f[x]]
 
-NewId == Cardinality(DOMAIN inst) + 1
+Init == disk = <<>> /\ inst = <<>> /\ reg = [t \in Types |-> <<>>] /\ hnd = <<>> /\ nid = 1 /\ lastop = <<"init">>
+
+NewId == nid
 
 \* open-or-create: a new buffered instance over the files of nm (reads what is ON DISK now)
 OpenFiles(h, t, nm) ==
     IF nm \in DOMAIN disk
     THEN IF disk[nm].sig = SigOf[t]
-         THEN /\ inst' = (NewId :> [name |-> nm, kt |-> t, content |-> disk[nm].content, dirty |-> FALSE]) @@ inst
-              /\ reg' = [reg EXCEPT ![t] = (nm :> NewId) @@ @]
-              /\ hnd' = (h :> NewId) @@ hnd
+         THEN /\ inst' = Ext(inst, NewId, [name |-> nm, kt |-> t, content |-> disk[nm].content, dirty |-> FALSE])
+              /\ reg' = [reg EXCEPT ![t] = Ext(reg[t], nm, NewId)]
+              /\ hnd' = Ext(hnd, h, NewId)
+              /\ nid' = nid + 1
               /\ lastop' = <<"open", h, nm, t>> /\ UNCHANGED disk
-         ELSE /\ lastop' = <<"refused", h, nm, t>> /\ UNCHANGED <<disk, inst, reg, hnd>>
-    ELSE /\ disk' = (nm :> [sig |-> SigOf[t], kt |-> t, content |-> <<>>]) @@ disk
-         /\ inst' = (NewId :> [name |-> nm, kt |-> t, content |-> <<>>, dirty |-> FALSE]) @@ inst
-         /\ reg' = [reg EXCEPT ![t] = (nm :> NewId) @@ @]
-         /\ hnd' = (h :> NewId) @@ hnd
+         ELSE /\ lastop' = <<"refused", h, nm, t>> /\ UNCHANGED <<disk, inst, reg, hnd, nid>>
+    ELSE /\ disk' = Ext(disk, nm, [sig |-> SigOf[t], kt |-> t, content |-> <<>>])
+         /\ inst' = Ext(inst, NewId, [name |-> nm, kt |-> t, content |-> <<>>, dirty |-> FALSE])
+         /\ reg' = [reg EXCEPT ![t] = Ext(reg[t], nm, NewId)]
+         /\ hnd' = Ext(hnd, h, NewId)
+         /\ nid' = nid + 1
          /\ lastop' = <<"create", h, nm, t>>
 
 GetMap(h, t, nm, withParams) ==
-    /\ h \notin DOMAIN hnd /\ Cardinality(DOMAIN inst) < MaxInst
+    /\ h \notin DOMAIN hnd /\ nid <= MaxInst
     /\ IF nm \in DOMAIN reg[t] /\ (AlwaysLookup \/ ~withParams)
-       THEN /\ hnd' = (h :> reg[t][nm]) @@ hnd
-            /\ lastop' = <<"alias", h, nm, t>> /\ UNCHANGED <<disk, inst, reg>>
+       THEN /\ hnd' = Ext(hnd, h, reg[t][nm])
+            /\ lastop' = <<"alias", h, nm, t>> /\ UNCHANGED <<disk, inst, reg, nid>>
        ELSE OpenFiles(h, t, nm)
 
 CloneHandle(h, g) ==
     /\ g \in DOMAIN hnd /\ h \notin DOMAIN hnd
-    /\ hnd' = (h :> hnd[g]) @@ hnd /\ lastop' = <<"clone", h, g>> /\ UNCHANGED <<disk, inst, reg>>
+    /\ hnd' = Ext(hnd, h, hnd[g]) /\ lastop' = <<"clone", h, g>> /\ UNCHANGED <<disk, inst, reg, nid>>
 
 Put(h, k, v) ==
     /\ h \in DOMAIN hnd
-    /\ inst' = [inst EXCEPT ![hnd[h]].content = (k :> v) @@ @, ![hnd[h]].dirty = TRUE]
-    /\ lastop' = <<"put", h, inst[hnd[h]].name>> /\ UNCHANGED <<disk, reg, hnd>>
+    /\ inst' = [i \in DOMAIN inst |-> IF i = hnd[h]
+                                      THEN [name |-> inst[i].name, kt |-> inst[i].kt, content |-> Ext(inst[i].content, k, v), dirty |-> TRUE]
+                                      ELSE inst[i]]
+    /\ lastop' = <<"put", h, inst[hnd[h]].name>> /\ UNCHANGED <<disk, reg, hnd, nid>>
 Del(h, k) ==
     /\ h \in DOMAIN hnd
-    /\ inst' = [inst EXCEPT ![hnd[h]].content = [x \in (DOMAIN @) \ {k} |-> @[x]], ![hnd[h]].dirty = TRUE]
-    /\ lastop' = <<"del", h, inst[hnd[h]].name>> /\ UNCHANGED <<disk, reg, hnd>>
+    /\ inst' = [i \in DOMAIN inst |-> IF i = hnd[h]
+                                      THEN [name |-> inst[i].name, kt |-> inst[i].kt,
+                                            content |-> [x \in (DOMAIN inst[i].content) \ {k} |-> inst[i].content[x]], dirty |-> TRUE]
+                                      ELSE inst[i]]
+    /\ lastop' = <<"del", h, inst[hnd[h]].name>> /\ UNCHANGED <<disk, reg, hnd, nid>>
 
 \* flush through a handle: the instance's view goes to the files
 Flush(h) ==
     /\ h \in DOMAIN hnd
     /\ LET i == hnd[h] IN
-       /\ disk' = IF inst[i].dirty THEN [disk EXCEPT ![inst[i].name].content = inst[i].content] ELSE disk
-       /\ inst' = [inst EXCEPT ![i].dirty = FALSE]
-    /\ lastop' = <<"flush", h, inst[hnd[h]].name>> /\ UNCHANGED <<reg, hnd>>
+       /\ disk' = [nm \in DOMAIN disk |-> IF inst[i].dirty /\ nm = inst[i].name
+                                           THEN [sig |-> disk[nm].sig, kt |-> disk[nm].kt, content |-> inst[i].content]
+                                           ELSE disk[nm]]
+       /\ inst' = [j \in DOMAIN inst |-> IF j = i THEN [name |-> inst[j].name, kt |-> inst[j].kt, content |-> inst[j].content, dirty |-> FALSE]
+                                                  ELSE inst[j]]
+    /\ lastop' = <<"flush", h, inst[hnd[h]].name>> /\ UNCHANGED <<reg, hnd, nid>>
 
 \* FileDb::sync_all: every REGISTERED instance is flushed (an instance that fell out of its registry is not)
 SyncDb ==
     /\ LET regd == {i \in DOMAIN inst : \E t \in Types : \E nm \in DOMAIN reg[t] : reg[t][nm] = i}
        IN /\ disk' = [nm \in DOMAIN disk |->
                         IF \E i \in regd : inst[i].name = nm /\ inst[i].dirty
-                        THEN [disk[nm] EXCEPT !.content = inst[CHOOSE i \in regd : inst[i].name = nm /\ inst[i].dirty].content]
+                        THEN [sig |-> disk[nm].sig, kt |-> disk[nm].kt,
+                              content |-> inst[CHOOSE i \in regd : inst[i].name = nm /\ inst[i].dirty].content]
                         ELSE disk[nm]]
-          /\ inst' = [i \in DOMAIN inst |-> IF i \in regd THEN [inst[i] EXCEPT !.dirty = FALSE] ELSE inst[i]]
-    /\ lastop' = <<"syncdb">> /\ UNCHANGED <<reg, hnd>>
+          /\ inst' = [i \in DOMAIN inst |-> IF i \in regd THEN [name |-> inst[i].name, kt |-> inst[i].kt, content |-> inst[i].content, dirty |-> FALSE]
+                                                           ELSE inst[i]]
+    /\ lastop' = <<"syncdb">> /\ UNCHANGED <<reg, hnd, nid>>
 
 Next == \/ \E h \in Handles, t \in Types, nm \in Names, wp \in BOOLEAN : GetMap(h, t, nm, wp)
         \/ \E h, g \in Handles : CloneHandle(h, g)
